@@ -7,8 +7,9 @@ PRed == <<2, 0, 0, 0, 0, 0, 0, 0>>
 POnBlue == <<0, 5, 2, 0, 0, 0, 0, 0>>
 Seed == << << <<<<97, 98>>, PRed>> >>,
            << <<<<99>>, PPlain>>, <<<<32, 100>>, POnBlue>> >>,
-           << <<<<>>, PRed>>, <<<<101, 10, 102>>, PPlain>> >> >>
-StrPool == << <<>>, <<120>>, <<44, 32>> >>                 \* plain str operands
+           << <<<<>>, PRed>>, <<<<101, 10, 102>>, PPlain>> >>,
+           << <<<<65317, 103>>, POnBlue>>, <<<<104, 769>>, PPlain>> >> >>       \* double-width and combining characters
+StrPool == << <<>>, <<120>>, <<44, 32>>, <<65317>> >>                 \* plain str operands
 AttMaps == << <<4, 0, 0, 0, 0, 0, 0, 0>>, <<0, 3, 3, 0, 0, 0, 0, 0>>, <<0, 0, 2, 0, 0, 3, 0, 0>> >>   \* override maps (0 = not named)
 StrRuns(t) == << <<t, PPlain>> >>
 
@@ -31,6 +32,6 @@ StepCells(p, e) ==
 HasModel(op) == op \in {"add", "addstr", "raddstr", "mul", "slice", "splice", "insert", "append", "join", "withatts",
                         "removeatts", "copy", "rewrap"}
 \* ops whose results the model does not compute (several results or str-defined): only immutability is judged
-OtherOps == {"split", "splitlines", "ljust", "rjust", "newstr", "wslice", "wsplit", "upper", "strip", "linesplit"}
+OtherOps == {"split", "splitlines", "ljust", "rjust", "newstr", "wslice", "wsplit", "upper", "strip", "linesplit", "setitem"}
 
 =============================================================================
